@@ -323,7 +323,8 @@ def expected_fields(sh, a, b):
 
 # ------------------------------------------------------------------ evaluation of `pair` rows
 
-RES_KEYS = ('apply', 'applyref', 'applymut', 'single', 'applyrefd', 'follow', 'followref', 'fapplyref', 'fapplymut', 'fsingle')
+RES_KEYS = ('apply', 'applyref', 'applymut', 'single', 'applyrefd', 'follow', 'followref', 'fapplyref', 'fapplymut', 'fsingle',
+            'cat', 'catref', 'catmut', 'catsingle')
 
 
 def evaluate_pairs(res, shs, reqs, rows, model_out, want):
@@ -405,6 +406,10 @@ def evaluate_pairs(res, shs, reqs, rows, model_out, want):
             fvals = [('panic' if sx.field(r, k)[0] == 'panic' else repr(shapes.canon_value(sh, sx.field(r, k)[0]))) for k in ('follow', 'fapplyref', 'fapplymut', 'fsingle')]
             if len(set(fvals)) != 1:
                 fails.append(('C06', 'on a base the diff was not computed from, apply / apply_ref / apply_mut / repeated apply_single disagree: ' + ' | '.join(v[:120] for v in fvals)))
+            # ... and for an entry list with more than one entry per field: diff(a, b) followed by diff(b, f)
+            cvals = [('panic' if sx.field(r, k)[0] == 'panic' else repr(shapes.canon_value(sh, sx.field(r, k)[0]))) for k in ('cat', 'catref', 'catmut', 'catsingle')]
+            if len(set(cvals)) != 1:
+                fails.append(('C06', 'for the entry list diff(a, b) ++ diff(b, f), apply / apply_ref / apply_mut / repeated apply_single disagree: ' + ' | '.join(v[:120] for v in cvals)))
             if sx.field(r, 'pure') != ['true']:
                 fails.append(('C06', 'an argument was modified by diff / diff_ref / apply_ref'))
         if 'C13' in want and sh['t'] == 'struct':
